@@ -41,6 +41,12 @@ type nodeMon struct {
 	prevTerm   uint64
 	preGrants  map[uint64]bool
 	leadSince  int
+	// C17 (CheckQuorum): ticks of this node, and for the current leadership the tick at which
+	// each peer was last heard from
+	ticks      int
+	leadTerm   uint64
+	leadStart  int
+	heard      map[uint64]int
 }
 
 type Monitors struct {
@@ -328,6 +334,45 @@ func (m *Monitors) onPropose(tok string, out string, local bool) {
 
 func (m *Monitors) onReadIndex(ctx string) { m.reads[ctx] = m.maxReported }
 
+// onBatch: a multi-entry proposal was stepped into node n. If it was accepted at a leader, the
+// entries must appear in its log in order, with type and payload preserved, except that a
+// configuration change may be replaced by an empty normal entry (C20).
+func (m *Monitors) onBatch(n *Node, ents []*pb.Entry, out string) {
+	if !n.alive || n.rn == nil || !strings.HasSuffix(out, "res=ok") && !strings.Contains(out, "res=ok") {
+		return
+	}
+	d := n.rn.VerifState()
+	if d.State != raft.StateLeader {
+		return
+	}
+	v := n.logView(&d)
+	if len(v.ents) < len(ents) {
+		m.report("C20", "", "leader %d accepted a batch of %d entries but its log holds fewer", n.id, len(ents))
+		return
+	}
+	tail := v.ents[len(v.ents)-len(ents):]
+	for i, e := range ents {
+		g := tail[i]
+		if e.GetType() == pb.EntryNormal {
+			if g.GetType() != pb.EntryNormal || string(g.GetData()) != string(e.GetData()) {
+				m.report("C20", "", "leader %d: entry %d of an accepted batch was stored as type %v payload %q instead of payload %q", n.id, i, g.GetType(), g.GetData(), e.GetData())
+			}
+		} else {
+			kept := g.GetType() == e.GetType() && string(g.GetData()) == string(e.GetData())
+			neutral := g.GetType() == pb.EntryNormal && len(g.GetData()) == 0
+			if !kept && !neutral {
+				m.report("C20", "", "leader %d: configuration change %d of an accepted batch was stored as neither itself nor an empty entry", n.id, i)
+			}
+		}
+	}
+}
+
+// onTick: node n was ticked (after the call).
+func (m *Monitors) onTick(n *Node) {
+	x := m.node(n)
+	x.ticks++
+}
+
 // onSend: a message is handed to the network by node n.
 func (m *Monitors) onSend(n *Node, msg *pb.Message) {
 	x := m.node(n)
@@ -377,6 +422,9 @@ func (m *Monitors) onSend(n *Node, msg *pb.Message) {
 }
 
 func (m *Monitors) beforeStep(n *Node, msg *pb.Message) {
+	if x := m.node(n); x.heard != nil && msg.GetFrom() != 0 && msg.GetFrom() != n.id && !raft.IsLocalMsg(msg.GetType()) {
+		x.heard[msg.GetFrom()] = x.ticks
+	}
 	m.stepMsg = msg
 	d := n.rn.VerifState()
 	m.stepPrev = &d
@@ -578,13 +626,56 @@ func (m *Monitors) afterOp(n *Node, kind string) {
 				m.report("C10", "", "leader %d of term %d has %d unapplied configuration changes of its own term in its log", n.id, d.Term, cnt)
 			}
 		}
-		// C16: inflight window
+		// C16: inflight window (count, and the byte budget up to the message that crosses it)
 		for id, p := range d.Progress {
 			if p.InflCount > n.cfg.MaxInflight {
 				m.report("C16", "", "leader %d has %d inflight appends to %d, limit %d", n.id, p.InflCount, id, n.cfg.MaxInflight)
 			}
+			if mb := n.cfg.MaxInflightBytes; mb != 0 && len(p.InflWindow) > 0 {
+				last := p.InflWindow[len(p.InflWindow)-1][1]
+				if p.InflBytes-last >= mb {
+					m.report("C16", "", "leader %d has %d inflight bytes to %d, more than one message beyond MaxInflightBytes %d", n.id, p.InflBytes, id, mb)
+				}
+			}
 		}
-	} else if d.Committed > m.maxLeaderCommit && kind != "new" {
+		// C17: with CheckQuorum a leader that has not heard from a quorum for two election
+		// timeouts is no longer leader (no transfer was requested in between: a transfer
+		// restarts the timer)
+		if x.leadTerm != d.Term || x.heard == nil {
+			x.leadTerm, x.leadStart, x.heard = d.Term, x.ticks, map[uint64]int{}
+		}
+		// a member added to the configuration is presumed active for its first window
+		// (initProgress sets RecentActive), like a peer heard from at that moment
+		if prev != nil {
+			for id := range d.Progress {
+				if _, ok := prev.Progress[id]; !ok {
+					x.heard[id] = x.ticks
+				}
+			}
+		}
+		// a change of the voter sets changes what a quorum is: restart the window
+		if prev != nil && cfgStr(prev.Config) != cfgStr(d.Config) {
+			x.leadStart = x.ticks
+		}
+		if kind == "transfer" {
+			x.leadStart = x.ticks
+			for k := range x.heard {
+				x.heard[k] = x.ticks
+			}
+		}
+		if n.cfg.CheckQuorum && kind == "tick" && x.ticks-x.leadStart > 2*n.cfg.ET {
+			recent := func(id uint64) bool {
+				if id == n.id {
+					return true
+				}
+				t, ok := x.heard[id]
+				return ok && x.ticks-t <= 2*n.cfg.ET
+			}
+			if !jointQuorum(d.Config, recent) {
+				m.report("C17", "", "leader %d of term %d is still leader %d ticks after it last heard from a quorum (election timeout %d)", n.id, d.Term, 2*n.cfg.ET+1, n.cfg.ET)
+			}
+		}
+	} else if x.heard = nil; d.Committed > m.maxLeaderCommit && kind != "new" {
 		m.report("C06", "", "node %d (not leader) has commit %d above every leader's commit %d", n.id, d.Committed, m.maxLeaderCommit)
 	}
 	// campaign checks (C10 hup, C17)
